@@ -436,7 +436,7 @@ func cmdCheck(args []string, writeLedger bool) {
 		if o == nil {
 			// obligation vanished: function/loop/call structure changed
 			fnKey := le.Name
-			if i := strings.Index(fnKey, "/"); i >= 0 {
+			if i := strings.LastIndex(fnKey, "/"); i >= 0 {
 				fnKey = fnKey[:i]
 			}
 			if rest := strings.TrimPrefix(le.Name, fnKey+"/"); strings.HasPrefix(rest, "call-cover.") {
